@@ -25,7 +25,7 @@ Function spec keys
 import os
 import re
 
-from .lower import Rule
+from .lower import Rule, CallRule
 
 VERIF = os.path.dirname(os.path.dirname(os.path.abspath(__file__)))
 
@@ -86,6 +86,38 @@ def parse_rule(val):
     if pat is None or rep is None:
         raise SpecError("rule needs pat: and rep: (%r)" % val)
     return Rule(pat, rep, kind=kind, n=n, stage=stage, name=name or pat)
+
+
+def parse_callrule(val):
+    """@callrule may|must N [pre|post] NAME
+         head: regex of the callee expression (up to the opening parenthesis)
+         rep: template for any argument count / rep1: rep2: ... per argument count"""
+    head, *rest = val.split('\n')
+    toks = head.split()
+    kind = toks[0]
+    n = None
+    idx = 1
+    if kind == 'must':
+        n = int(toks[1])
+        idx = 2
+    stage = 'pre'
+    if len(toks) > idx and toks[idx] in ('pre', 'post'):
+        stage = toks[idx]
+        idx += 1
+    name = ' '.join(toks[idx:]) or None
+    hd = None
+    reps = {}
+    for l in rest:
+        ls = l.strip()
+        if ls.startswith('head:'):
+            hd = ls[5:].strip()
+        else:
+            m = re.match(r'rep(\d*):\s*(.*)$', ls)
+            if m:
+                reps[int(m.group(1)) if m.group(1) else '*'] = m.group(2)
+    if hd is None or not reps:
+        raise SpecError("callrule needs head: and rep: (%r)" % val)
+    return CallRule(hd, reps, kind=kind, n=n, stage=stage, name=name or hd)
 
 
 class Clause:
@@ -160,6 +192,8 @@ class FunctionSpec:
                 self.siblings += v.split()
             elif k == 'rule':
                 self.rules.append(parse_rule(v))
+            elif k == 'callrule':
+                self.rules.append(parse_callrule(v))
             elif k in ('requires', 'ensures', 'assigns'):
                 label, expr = split_label(v)
                 self.clauses.append(Clause(k, label, expr))
@@ -283,6 +317,8 @@ class UnitSpec:
                 self.siblings += v.split()
             elif k == 'rule':
                 self.rules.append(parse_rule(v))
+            elif k == 'callrule':
+                self.rules.append(parse_callrule(v))
             elif k == 'use':
                 for u in v.split():
                     o = load_unit(u)
